@@ -180,6 +180,35 @@ def replay_case(arg):
     for a, b in zip(t_in + o_in, times + obs):
         if not np.array_equal(a, b):
             fail('NoInputWrite', 'data_modified', None)
+    # ---- the same sums with one error-model parameter fixed at the likelihood (each in turn), then released ----------
+    if not fails:
+        for k_ in range(nmech, rec['nparams']):
+            free = [q for q in range(rec['nparams']) if q != k_]
+            try:
+                with warnings.catch_warnings():
+                    warnings.simplefilter('error', RuntimeWarning)
+                    ll.fix_parameters({rec['names'][k_]: float(theta[k_])})
+                    nm = list(ll.get_parameter_names())
+                    v_f = ll(theta[free].copy())
+                    pw_f = np.asarray(ll.compute_pointwise_ll(theta[free].copy()), dtype=float)
+                    s_f, g_f = ll.evaluateS1(theta[free].copy())
+                    ll.fix_parameters({rec['names'][k_]: None})
+                    v_r = ll(theta.copy())
+            except Exception as e:
+                fail('Evaluable', type(e).__name__, dict(op='fixed ' + rec['names'][k_], error=repr(e)))
+                break
+            cnt['evaluations'] = cnt.get('evaluations', 0) + 4
+            ctx = dict(fixed=rec['names'][k_], theta=theta.tolist())
+            if nm != [rec['names'][q] for q in free]:
+                fail('Names', 'names_with_fixed', dict(ctx, got=nm))
+            if not interp.close(v_f, exp_total) or not interp.close(s_f, exp_total) or not interp.close(v_r, exp_total):
+                fail('BagIsDecl', 'value_with_fixed', dict(ctx, got=[float(v_f), float(s_f), float(v_r)], expected=exp_total))
+            if pw_f.shape != exp_pw.shape or not interp.close(_sort_within_ties(pw_f, rec), _sort_within_ties(exp_pw, rec)) \
+                    or not interp.close(np.sum(pw_f), v_f):
+                fail('PointwiseSum', 'with_fixed', dict(ctx, got=pw_f.tolist(), expected=exp_pw.tolist(), total=float(v_f)))
+            g_f = np.asarray(g_f, dtype=float)
+            if g_f.shape != (len(free),) or not interp.close(g_f, exp_grad[free], rtol=1e-8, atol=1e-8):
+                fail('GradIsDecl', 'gradient_with_fixed', dict(ctx, got=g_f.tolist(), expected=exp_grad[free].tolist()))
     # ---- outside the support (C03, last sentence): plain evaluation and evaluation with sensitivities agree on
     # finiteness; every error-model parameter in turn (and one mechanistic parameter) is set to zero / a negative number
     if not fails:
